@@ -69,6 +69,8 @@ type facts struct {
 	dispatchGuard    []string
 	typeErrors       []string
 	structure        structFacts
+	wiring           wiringFacts
+	own              ownFacts // ownership.go
 }
 
 // ---------------------------------------------------------------------------
@@ -1993,7 +1995,10 @@ func render(fx *facts, read []string) string {
 	b.WriteString("/-- Condition(s) under which the scheduler loop's select may send on the ready channel. -/\n")
 	writeList(&b, "dispatchGuard", "String", q)
 
+	renderWiring(&b, &fx.wiring)
+
 	renderStruct(&b, &fx.structure)
+	renderOwnership(&b, &fx.own)
 
 	q = nil
 	for _, s := range uniq(sortedStrings(fx.typeErrors)) {
@@ -2041,6 +2046,7 @@ func main() {
 		}
 		r.scanGoPkg(p, fx)
 	}
+	r.scanOwnership(im, fx)
 	for e := range im.errs {
 		fx.typeErrors = append(fx.typeErrors, e)
 	}
@@ -2048,6 +2054,7 @@ func main() {
 	r.scanSourceMap(internal, fx)
 	r.scanDirectives(internal, fx)
 	r.scanScheduler(fx)
+	r.scanSchedulerWiring(&fx.wiring)
 	r.scanTemplateStructure(&fx.structure)
 
 	var read []string
@@ -2068,7 +2075,13 @@ func main() {
 	fmt.Printf("extract: wrote %s (exprSites=%d hardcodedPkgRefs=%d mapRangeSites=%d randomSources=%d sourceMapWrites=%d directiveNames=%d directiveTable=%d chanCaps=%d dispatchGuard=%d typeErrors=%d filesRead=%d)\n",
 		out, len(fx.exprSites), len(fx.hardcodedPkgRefs), len(fx.mapRangeSites), len(fx.randomSources), len(fx.sourceMapWrites),
 		len(fx.directiveNames), len(fx.directiveTable), len(fx.chanCaps), len(fx.dispatchGuard), len(uniq(sortedStrings(fx.typeErrors))), len(read))
+	wf := &fx.wiring
+	fmt.Printf("extract: scheduler wiring: loopSelectArms=%d loopRoles=%d loopAfterFor=%d loopExitConds=%d resultArmShape=%d enqueueArmShape=%d workerShape=%d waitShape=%d enqueueShape=%d wiringUnknown=%d\n",
+		len(wf.arms), len(wf.roles), len(wf.afterFor), len(wf.exitConds), len(wf.resultArm), len(wf.enqueueArm), len(wf.worker), len(wf.wait), len(wf.enqueue), wf.unknowns())
 	st := &fx.structure
 	fmt.Printf("extract: template structure: tmplFuncLits=%d topLevelReturns=%d rootOrder=%d taskBodyOrder=%d loopVarCopies=%d loopVarUses=%d endJobDeps=%d elemJobCollect=%d waitStmts=%d tmplStructUnknown=%d\n",
 		len(st.funcLits), len(st.topReturns), len(st.rootOrder), len(st.taskBodyOrder), len(st.loopVarCopies), len(st.loopVarUses), len(st.endJobDeps), len(st.elemJobCollect), len(st.waitStmts), len(uniq(pairs(st.unknown))))
+	ow := &fx.own
+	fmt.Printf("extract: ownership: fieldAccesses=%d fieldTypes=%d structInits=%d loopCounterTypes=%d goroutineRoots=%d fnThreads=%d emitterAdapter=%d\n",
+		len(ow.fieldAccesses), len(ow.fieldTypes), len(ow.structInits), len(ow.loopCounterTypes), len(ow.goroutineRoots), len(ow.fnThreads), len(ow.emitterAdapter))
 }
